@@ -58,10 +58,11 @@ func encoderOf(F font.Layouter) *simpleenc.Simple {
 
 // kind describes one way of making a font.
 type kind struct {
-	label     string
-	composite bool
-	enc       string // "simple", "identity", "utf8"
-	make      func(t *tracer) font.Layouter
+	label      string
+	composite  bool
+	parentCMap bool   // the font's CMap uses another CMap
+	enc        string // "simple", "identity", "utf8"
+	make       func(t *tracer) font.Layouter
 }
 
 // tracer writes the Encode/GetCode trace of one encoder instance.
@@ -284,7 +285,11 @@ func allKinds() []kind {
 	}
 	for _, name := range predefinedKinds {
 		name := name
-		res = append(res, kind{label: "Go5/" + name, composite: true, enc: "cmap", make: func(t *tracer) font.Layouter {
+		cm, err := cmap.Predefined(name)
+		if err != nil {
+			panic(err)
+		}
+		res = append(res, kind{label: "Go5/" + name, composite: true, enc: "cmap", parentCMap: cm.Parent != nil, make: func(t *tracer) font.Layouter {
 			return goWithCMap(t, name)
 		}})
 	}
